@@ -13,9 +13,9 @@ from lib import refcodec as rc
 from lib.core import ShardResult
 
 LEVEL = 'exploration'
-RULE = ('every cart of <= N code lines over 29 line kinds (2 plain lines; includes of 3 .lua files incl. one without final '
+RULE = ('every cart of <= N code lines over 30 line kinds (2 plain lines; includes of 3 .lua files incl. one without final '
         'newline and one in a subdirectory; whole .p8 carts with 0 and 2 tab separators; .p8:n and .p8.png:n for n in '
-        '0..tabs+1; whole .p8.png; 2 missing targets); quick: N=2 over all kinds + N=3 over the 20 non-PNG kinds; '
+        '0..tabs+1; whole .p8.png; 2 missing targets); quick: N=2 over all kinds + N=3 over the 21 non-PNG kinds; '
         'thorough: N=3 over all + N=4 over non-PNG; non-trivial = cart with at least one #include line; distinct = '
         'distinct line sequence')
 ASSUMPTIONS = ['expected code = byte concatenation of the spliced lines (an included file without final newline joins the '
@@ -29,6 +29,7 @@ LUA_FILES = {
     'inc.lua': b'la=1\nlb=2\n',
     'incn.lua': b'lc=3',
     'sub/s.lua': b'-- sub\nld=4\n',
+    'nest.lua': b'#include inc.lua\nq=1\n',      # an include line inside an included file is not expanded
 }
 TAB = b'-->8\n'
 CART_CODE = {
@@ -64,7 +65,7 @@ def tabs_of(code_lines):
 
 def line_kinds():
     kinds = [('plain', b'a=1\n'), ('plain', b'b=2 -- #include inc.lua\n')]
-    kinds += [('lua', 'inc.lua'), ('lua', 'incn.lua'), ('lua', 'sub/s.lua')]
+    kinds += [('lua', 'inc.lua'), ('lua', 'incn.lua'), ('lua', 'sub/s.lua'), ('lua', 'nest.lua')]
     kinds += [('p8', 'inc0', None), ('p8', 'inc2', None), ('p8', 'inc3e', None)]
     kinds += [('p8', 'inc2', n) for n in range(0, 5)]
     kinds += [('p8', 'inc0', n) for n in range(0, 2)]
